@@ -459,7 +459,7 @@ class VerifyingKey(object):
         if not oid_pk == oid_ecPublicKey:
             raise der.UnexpectedDER(
                 "Unexpected object identifier in DER "
-                "encoding: {0!r}".format(oid_pk)
+                "encoding: {0}".format(der.oid_to_text(oid_pk))
             )
         curve = find_curve(oid_curve)
         point_str, empty = der.remove_bitstring(point_str_bitstring, 0)
@@ -1052,8 +1052,8 @@ class SigningKey(object):
         if der.is_sequence(s):
             if version not in (0, 1):
                 raise der.UnexpectedDER(
-                    "expected version '0' or '1' at start of privkey, got %d"
-                    % version
+                    "expected version '0' or '1' at start of privkey, "
+                    "got 0x%x" % version
                 )
 
             sequence, s = der.remove_sequence(s)
@@ -1063,7 +1063,8 @@ class SigningKey(object):
 
             if algorithm_oid not in (oid_ecPublicKey, oid_ecDH, oid_ecMQV):
                 raise der.UnexpectedDER(
-                    "unexpected algorithm identifier '%s'" % (algorithm_oid,)
+                    "unexpected algorithm identifier '%s'"
+                    % der.oid_to_text(algorithm_oid)
                 )
             if empty != b"":
                 raise der.UnexpectedDER(
@@ -1089,7 +1090,7 @@ class SigningKey(object):
         # The version of the ECPrivateKey must be 1.
         if version != 1:
             raise der.UnexpectedDER(
-                "expected version '1' at start of DER privkey, got %d"
+                "expected version '1' at start of DER privkey, got 0x%x"
                 % version
             )
 
